@@ -167,7 +167,10 @@ impl HugePage {
         }
 
         // Round up size to multiple of page size
-        let aligned_size = (size + page_size - 1) & !(page_size - 1);
+        let aligned_size = size
+            .checked_add(page_size - 1)
+            .ok_or_else(|| ZiporaError::out_of_memory(size))?
+            & !(page_size - 1);
 
         // Try to allocate using mmap with MAP_HUGETLB
         let ptr = unsafe {
